@@ -334,6 +334,16 @@ func (r *TypeReg) rangeAssumption(v Term, t types.Type, depth int) Term {
 	if _, isPtr := t.Underlying().(*types.Pointer); isPtr && v.Sort == SInt {
 		return App(SBool, ">=", v, IntLit(0))
 	}
+	if it, isIface := t.Underlying().(*types.Interface); isIface && v.Sort == SIface {
+		nilness := Eq(Eq(App(SInt, "ityp", v), IntLit(0)), Eq(v, T("(mkiface 0 0)", SIface)))
+		if it.NumMethods() > 0 {
+			// a non-nil value of a non-empty interface type holds a dynamic type implementing it
+			pred := "implements_" + r.typeID(t)
+			r.script.DeclareFun(pred, []string{SInt}, SBool)
+			return And(nilness, Implies(Not(Eq(App(SInt, "ityp", v), IntLit(0))), App(SBool, pred, App(SInt, "ityp", v))))
+		}
+		return nilness
+	}
 	return TTrue
 }
 
@@ -442,6 +452,7 @@ func (e *Enc) havocAll(s *State) *State {
 		ns.vals[name] = e.lookup(s, name, e.heapSorts[name])
 	}
 	e.lookup(ns, "alloc", SInt)
+	e.assumeGlobalInvs(ns)
 	return ns
 }
 
